@@ -11,6 +11,8 @@ any header; FASTQ records are four lines with blank lines between records.
 -/
 import Biogo.Proofs.Fasta
 import Biogo.Proofs.Fastq
+import Biogo.Proofs.FastqView
+import Biogo.Proofs.SeqCRLF
 
 namespace Biogo.Properties.C04_seq
 open Biogo.Go.Bytes Biogo.Spec.Seqio
@@ -85,6 +87,12 @@ theorem fasta_blank_line_any (a blanks b : Bytes) (hb : ∀ x ∈ blanks, isBlan
     (ha : a = [] ∨ a.getLast? = some 10) :
     readAll {} (a ++ (blanks ++ 10 :: b)) = readAll {} (a ++ b) :=
   readAll_view _ _ (viewOf_blank_line a blanks b hb [] (ha.imp (fun h => ⟨h, rfl⟩) id))
+
+/-- **`FastaRenders` is closed under the explicit CRLF transformation**: if `bs` is a layout of
+    `recs`, so is `toCRLF bs` (every LF replaced by CR LF) — the relation's "a CR is a trailing
+    blank" really covers the CRLF form of every file it admits. -/
+theorem fasta_renders_toCRLF (recs : List Rec) (bs : Bytes) (h : FastaRenders recs bs) :
+    FastaRenders recs (toCRLF bs) := fastaRenders_toCRLF h
 
 end fasta
 
@@ -161,6 +169,26 @@ theorem fastq_trailing_blanks_any (cfg : Cfg) (eofWithData : Bool) (a blanks b :
     (hb : ∀ x ∈ blanks, isBlank x = true) :
     readAll cfg eofWithData (a ++ blanks ++ 10 :: b) = readAll cfg eofWithData (a ++ 10 :: b) :=
   readAll_trailing_blanks cfg eofWithData a blanks b hb
+
+/-- **The FASTQ reader sees an input only through `viewQ`** (analogue of `fasta_view`): the lines
+    `ReadLine` delivers completely, after `bytes.TrimSpace` (blank lines included: they are data
+    in state `quality` after an empty sequence), and the bytes pending at `io.EOF` without
+    their white space.  Two byte strings — valid files or not — with the same view, under
+    either behaviour of the `io.Reader` at the end of each, give the same call history. -/
+theorem fastq_view (cfg : Cfg) (e e' : Bool) (bs bs' : Bytes) (h : viewQ e bs = viewQ e' bs') :
+    readAll cfg e bs = readAll cfg e' bs' := readAll_viewQ cfg e e' bs bs' h
+
+-- non-vacuity: CRLF, trailing blanks and a missing final newline leave the view unchanged …
+example : viewQ false [64, 120, 13, 10, 97, 32, 13, 10, 43, 9, 10, 73] = viewQ true [64, 120, 10, 97, 10, 43, 10, 73, 10] := by
+  decide
+-- … and a blank line does not
+example : viewQ false [64, 120, 10, 10, 97, 10] ≠ viewQ false [64, 120, 10, 97, 10] := by decide
+
+/-- **`FastqRenders` is closed under the explicit CRLF transformation** (for records whose
+    header, letters and quality line contain no LF — `RecOK`, implied by `wfFastq`). -/
+theorem fastq_renders_toCRLF (ql : QRec → Bytes) (recs : List QRec) (bs : Bytes)
+    (hok : ∀ r ∈ recs, RecOK ql r) (h : FastqRenders ql recs bs) :
+    FastqRenders ql recs (Biogo.Fasta.toCRLF bs) := fastqRenders_toCRLF hok h
 
 end fastq
 
